@@ -1050,6 +1050,29 @@ func (e *specEnv) call(n *ast.CallExpr) (SVal, error) {
 			a = IfVal(a)
 		}
 		return sv(a, ty), nil
+	case "asiface":
+		// asiface("pkg.Iface", x): x converted to the named interface type (as the compiler's MakeInterface does)
+		lit, ok := n.Args[0].(*ast.BasicLit)
+		if !ok || len(n.Args) != 2 {
+			return SVal{}, fmt.Errorf("asiface(\"pkg.Iface\", x)")
+		}
+		tn, _ := strconv.Unquote(lit.Value)
+		ity, err := e.resolveType(tn)
+		if err != nil {
+			return SVal{}, err
+		}
+		x, err := e.eval(n.Args[1])
+		if err != nil {
+			return SVal{}, err
+		}
+		if x.Ty == nil {
+			return SVal{}, fmt.Errorf("asiface: untyped value")
+		}
+		xt := fx.materialize(x.V, x.Ty)
+		if xt.Sort == SIface {
+			return SVal{V: tv(xt), Ty: ity}, nil
+		}
+		return sv(MkIface(Int(int64(fx.eng.typeID(x.Ty))), xt), ity), nil
 	case "base":
 		a, err := argT(0)
 		if err != nil {
